@@ -97,6 +97,8 @@ def ns_map_of(nf):
             if item[0] == "item" and item[1][0] == "tuple":
                 out.append((item[1][1][0], item[1][1][1], None))
             elif item[0] == "star" and item[2][0] == "tuple":
+                if len(item) > 4 and not _harmless_conditions(item[4], item[2]):
+                    continue   # entries added for some of the elements only do not declare the prefixes of all members
                 out.append((item[2][1][0], item[2][1][1], item[1]))
             else:
                 return None
@@ -155,6 +157,25 @@ def attribute_flag(a, ev):
         if c[0] == "alt" and og.nf_str(c[1]).endswith("is_attribute"):
             cond = c[2]
     return has, cond
+
+
+def _harmless_conditions(conds, val):
+    """The conditions under which a (prefix, uri) pair is added for an element do not leave out any element that can carry a
+    prefix: `if let Some(ns) = <the option the pair is taken from>` (no namespace, no prefix) and de-duplication tests
+    (`!list.contains(pair)`). Anything else (a filter on another property of the element) leaves prefixes undeclared."""
+    used = og.nf_str(val)
+    for c in conds:
+        neg = False
+        while isinstance(c, tuple) and c[0] == "not":
+            c, neg = c[1], not neg
+        if isinstance(c, tuple) and c[0] == "islet" and c[1].startswith("Some(") and og.nf_str(c[2]) in used.replace("Some⟨", "").replace("⟩", ""):
+            continue
+        if isinstance(c, tuple) and c[0] == "islet" and c[1].startswith("Some(") and og.nf_str(("payload", "Some", c[2])) in used:
+            continue
+        if neg and isinstance(c, tuple) and c[0] == "call" and str(c[1]).rsplit("::", 1)[-1] == "contains":
+            continue
+        return False
+    return True
 
 
 def same_namespace_source(k, v):
